@@ -9,7 +9,16 @@ FRESH = ["x-verif-ext", "__verif__", "vérifExt", "zzUnknown9", "$verif", "verif
 PAYLOADS = [None, True, 0, -1.5, "s", "", [], {}, [1, {"a": None}], {"kind": "create", "id": 1, "range": {"start": {"line": 0, "character": 0}}}, {"documentSelector": None}, 2**40]
 
 
+def declared_names(mm):
+    return _declared(mm)
+
+
 def fresh_keys(mm):
+    declared = _declared(mm)
+    return [k for k in FRESH if k not in declared]
+
+
+def _declared(mm):
     declared = {"jsonrpc", "id", "method", "params", "result", "error", "value"}
     for s in mm.S.values():
         for p in s.get("properties", []):
@@ -25,10 +34,26 @@ def fresh_keys(mm):
             mm.walk_types(p["type"], w)
     for a in mm.A.values():
         mm.walk_types(a["type"], w)
-    return [k for k in FRESH if k not in declared]
+    return declared
 
 
-def inject(n, pick, rng, keys, counter):
+def lookalikes(mm, owner, declared):
+    """Undeclared names that LOOK like a declared property of this node: snake_case spelling,
+    trailing underscore, capitalised, upper-cased, dashed - with a payload valid for that
+    property (a lenient/aliasing parser would let them populate the declared field)."""
+    from .mm import snake
+
+    if owner not in mm.S:
+        return []
+    out = []
+    for pn, p in mm.flat_props(owner).items():
+        for alt in {snake(pn), pn + "_", pn[:1].upper() + pn[1:], pn.upper(), "_" + pn, snake(pn).replace("_", "-"), pn.lower()}:
+            if alt != pn and alt not in declared:
+                out.append((alt, p))
+    return out
+
+
+def inject(n, pick, rng, keys, counter, mm=None, declared=None):
     """Rebuild JSON from tree n adding fresh keys at protocol-object nodes selected by pick(idx)."""
     k = n[0]
     if k == "leaf":
@@ -36,23 +61,31 @@ def inject(n, pick, rng, keys, counter):
     if k == "enum":
         return n[2]
     if k == "obj":
-        out = {p: inject(c, pick, rng, keys, counter) for p, c in n[2].items()}
+        out = {p: inject(c, pick, rng, keys, counter, mm, declared) for p, c in n[2].items()}
         if n[1] != "open":
             idx = counter[0]
             counter[0] += 1
             if pick(idx):
                 for kk in rng.sample(keys, rng.choice([1, 1, 2, 3])):
                     out[kk] = rng.choice(PAYLOADS)
+                if mm is not None and rng.random() < 0.7:
+                    la = lookalikes(mm, n[1], declared)
+                    for alt, p in rng.sample(la, min(len(la), rng.choice([1, 2, 4]))):
+                        from .workload import TGen as _TG
+                        from .gen import to_json as _tj
+
+                        out[alt] = _tj(_TG(mm, rng, maxdepth=1, p_opt=0.3).gen(p["type"]))
+                        counter[2] += 1
                 counter[1] += 1
                 if rng.random() < 0.3:  # also in front of the declared keys
                     out = dict(list(out.items())[::-1])
         return out
     if k in ("arr", "tup"):
-        return [inject(c, pick, rng, keys, counter) for c in n[1]]
+        return [inject(c, pick, rng, keys, counter, mm, declared) for c in n[1]]
     if k == "map":
-        return {p: inject(c, pick, rng, keys, counter) for p, c in n[1].items()}
+        return {p: inject(c, pick, rng, keys, counter, mm, declared) for p, c in n[1].items()}
     if k == "or":
-        return inject(n[2], pick, rng, keys, counter)
+        return inject(n[2], pick, rng, keys, counter, mm, declared)
 
 
 def shard(i, n, args):
@@ -60,6 +93,7 @@ def shard(i, n, args):
     seed = common.seed()
     mm, py = ctx.load()
     keys = fresh_keys(mm)
+    declared = declared_names(mm)
     res = {"cases": 0, "bases": 0, "bases_skipped": 0, "injections": 0, "nontrivial": 0, "failures": {}, "samples": [], "nodes": 0}
     fails = res["failures"]
     sigs = set()
@@ -83,7 +117,7 @@ def shard(i, n, args):
                 res["bases_skipped"] += 1  # base does not parse: C01's subject
                 continue
             res["bases"] += 1
-            cnt = [0, 0]
+            cnt = [0, 0, 0]
             inject(tree, lambda x: False, rng_for(0), keys, cnt)
             nodes = cnt[0]
             res["nodes"] += nodes
@@ -101,10 +135,11 @@ def shard(i, n, args):
                 sigs.add(h)
                 res["nontrivial"] += nontrivial(tree)
             for plab, pick in plans:
-                cnt = [0, 0]
-                jp = inject(tree, pick, r, keys, cnt)
+                cnt = [0, 0, 0]
+                jp = inject(tree, pick, r, keys, cnt, mm, declared)
                 res["cases"] += 1
                 res["injections"] += cnt[1]
+                res["lookalikes"] = res.get("lookalikes", 0) + cnt[2]
                 wit = {"root": root.label, "case": lab, "plan": plab, "json": jp}
                 try:
                     o1 = py.conv.structure(jp, root.cls)
@@ -149,6 +184,7 @@ def main(tier):
         "bases_skipped_not_parsing": sum(r["bases_skipped"] for r in results),
         "object_nodes": sum(r["nodes"] for r in results),
         "node_injections": inj,
+        "lookalike_keys_injected": sum(r.get("lookalikes", 0) for r in results),
         "samples": samples or [{}],
     }
     return rep.finish(cov, assumptions=["fresh = declared by no structure/literal of the metamodel"])
